@@ -225,8 +225,20 @@ pub mod generics {
         pub a: U,
         pub _p: PhantomData<T>,
     }
+    /// tuple struct with an unused parameter
+    #[derive(TypeInfo)]
+    pub struct TuplePh<T>(pub u8, pub PhantomData<T>);
+    /// enum with an unused parameter
+    #[derive(TypeInfo)]
+    pub enum EnumPh<T> {
+        /// first
+        A(u8),
+        B(PhantomData<T>),
+    }
     #[derive(TypeInfo)]
     pub struct UsesPh {
+        pub t: TuplePh<u32>,
+        pub e: EnumPh<u64>,
         pub a: Ph<u8>,
         pub b: Ph<u16>,
         pub c: NamedPh<u8, u16>,
